@@ -308,7 +308,8 @@ AddrPool == << <<"a", <<0, 0>> \o Pay(20, 1, 7, 9), <<>>>>,                     
                <<"a", <<0, 2>> \o Pay(20, 0, 255, 0), <<120>>>>,                      \* tz3 .. %x
                <<"a", <<0, 3>> \o Pay(20, 255, 1, 255), <<>>>>,                       \* tz4
                <<"a", <<0, 1>> \o Pay(20, 4, 4, 4), <<>>>>,                          \* tz2
-               <<"a", <<1>> \o Pay(20, 200, 3, 77) \o <<0>>, [j \in 1..31 |-> 97 + (j % 26)]>> >>   \* KT1 with an entrypoint name of the maximal length (31)
+               <<"a", <<1>> \o Pay(20, 200, 3, 77) \o <<0>>, [j \in 1..31 |-> 97 + (j % 26)]>>,     \* KT1 with an entrypoint name of the maximal length (31)
+               <<"a", <<0, 0>> \o Pay(20, 1, 7, 9), <<100, 101, 102, 97, 117, 108, 116, 95, 97, 100, 109, 105, 110>>>> >>   \* tz1 .. %default_admin: begins with, but is not, the default name
 KhPool == << <<"o", <<0>> \o Pay(20, 0, 5, 6)>>,         \* tz1, digest starting 00
              <<"o", <<1>> \o Pay(20, 9, 9, 0)>>,         \* tz2, digest ending 00
              <<"o", <<3>> \o Pay(20, 255, 255, 255)>>,   \* tz4
